@@ -35,7 +35,10 @@ ALL_QUIRKS = ['label_absent', 'dup_keyorder', 'labels_match_ignored', 'bare_colo
 # is Mech(AllQuirks minus these); a repaired quirk stays in the specification as a mutation: TLC still says where it would
 # fire, the real code must answer the definition there, and an answer that equals the prediction WITH the quirk is reported
 # under the quirk's signature again.
-REPAIRED = []
+REPAIRED = ['post_form',       # the form decoders ignore unknown keys (match[])
+            'dup_keyorder',    # encodeLabels writes the labels sorted by name: one document per label set
+            'bare_colon',      # ParseSeries takes the metric names of the Prometheus data model ([a-zA-Z_:][a-zA-Z0-9_:]*)
+            'goquote']         # Prom2LogqlMatch writes matcher values as JSON strings
 
 CFG = '''SPECIFICATION Spec
 CONSTANTS
